@@ -177,10 +177,207 @@ def run(ctx):
     ctx.correspond("second-run", second, lambda c, m: m, lambda c, r: r, second_ok,
                    nontrivial=lambda c, m: sexp.dumps(c[1]), describe=describe, env=env, shards=16)
     ctx.extra["exhaustive"] = not thorough or ngroups == 3
+    # the same properties on the real binary, end to end
+    if not ctx.violations:
+        build.ensure_vsb()
+        e2e(ctx, rng, 240 if thorough else 24)
+        ctx.rule += (" End to end: %d generated (local storage, cloud state, limit, create / upload faults) cases per run, the real `vsb upload` with real "
+                     "gpg against the provider emulator (Dropbox, Yandex Disk, Google Drive in turn): the actions it logs, its ok state and the cloud "
+                     "namespace afterwards vs the planner model, and the property evaluated on what the run did." % (240 if thorough else 24))
     ctx.notes.append("group / backup names are numbers in the model (order-isomorphic to the date strings the harness renders them to); "
                      "listing-level inputs (temporary objects, unexpected entries) enter through the ok flag here and through the listing model in C13")
     ctx.assumptions += ["gpg replaced by a pass-through stub for this planner-level check (the upload path itself is C04/C05)",
                         "BTreeMap/BTreeSet iteration is in key order"]
+
+
+# ---- end to end: the real `vsb upload` against the provider emulator, over the same kind of cases ----------------------------------------
+import hashlib
+import re
+
+X_HASH = hashlib.sha512(b"x").hexdigest()
+CHECK_RS = ("has an empty", "have no backups", "doesn't have any backup", "Failed to check last backup time", "Failed to determine a time")
+
+
+def gname(g):
+    return "2023.11.%02d" % (g % 28 + 1) if g < 28 else "2024.%02d.%02d" % (g // 28, g % 28 + 1)
+
+
+def bname(g, b):
+    k = b - g * 100000
+    return "%s-%02d:%02d:00" % (gname(g), k // 60, k % 60)
+
+
+def e2e_case(ctx, sb, n, provider, local, cloud, mx, faults, stray=()):
+    """faults: list of ('create', g) / ('upload', g, b).  Returns a problem tuple (kind, text) or None."""
+    from vlib import cloud as cl, model, slevel
+    st = sb.path("st%d" % n)
+    spec = {"groups": [{"name": gname(g), "backups": [
+        {"name": bname(g, b), "manifest": [{"unique": True, "hash": X_HASH, "fp": [1, 2, 3], "size": 1, "path_hex": b"/p".hex()}],
+         "entries": [{"type": "file", "path_hex": b"p".hex(), "data_hex": b"x".hex()}]} for b in bs]} for g, bs in local]}
+    if "local" in stray:
+        spec["junk"] = [{"name": "stray-file", "dir": False}]
+    sb.write_storage(spec, st)
+    cl.write_upload_config(sb, st, provider, max_groups=mx)
+    ns = {cl.CLOUD_ROOT: {"type": "folder"}}
+    for g, bs in cloud:
+        ns["%s/%s" % (cl.CLOUD_ROOT, gname(g))] = {"type": "folder"}
+        for b in bs:
+            ns["%s/%s/%s.tar.gpg" % (cl.CLOUD_ROOT, gname(g), bname(g, b))] = {"type": "file", "content_hex": (b"cloud object %d" % b).hex()}
+    if "cloud" in stray:
+        ns["%s/stray-object.txt" % cl.CLOUD_ROOT] = {"type": "file", "content_hex": b"stray".hex()}
+    init = {"dropbox": ns, "yandex": ns, "google": ns}
+    # the order of creations / uploads does not depend on the ok flag: plan once to place the faults
+    plan = model.run_driver([[600, [local, cloud, 1, mx, [], []]]])[0]
+    creates = [a[1] for a in plan[1] if a[0] == 0]
+    uploads = [[a[1], a[2]] for a in plan[1] if a[0] == 1]
+    cfail = [f[1] for f in faults if f[0] == "create" and f[1] in creates]
+    ufail = [[f[1], f[2]] for f in faults if f[0] == "upload" and [f[1], f[2]] in uploads]
+    routes = {"dropbox": ("dropbox.create_folder", "dropbox.upload_session.start"), "yandex": ("yandex.resources.mkdir", "yandex.resources.upload_href"),
+              "google": ("google.upload.init_create", "google.upload.init_create")}[provider]      # Google creates folders through the upload route
+    script = []
+    # walk the plan in order, counting the requests each action makes on its route; an upload into a group whose creation failed is never
+    # attempted and makes no request
+    counters = {}
+    for a in plan[1]:
+        if a[0] == 0:
+            counters[routes[0]] = counters.get(routes[0], 0) + 1
+            if a[1] in cfail:
+                script.append({"when": {"route": routes[0], "nth": counters[routes[0]]}, "fault": "http_5xx_json"})
+        elif a[0] == 1 and a[1] not in cfail:
+            counters[routes[1]] = counters.get(routes[1], 0) + 1
+            if [a[1], a[2]] in ufail:
+                script.append({"when": {"route": routes[1], "nth": counters[routes[1]]}, "fault": "http_5xx_json"})
+    emu = cl.Emu(sb.path("emu%d" % n), init=init, script=script or None)
+    try:
+        r = cl.run_upload(sb, emu, now=1700000000 + 40 * 86400, timeout=120)
+        files = emu.files(provider)
+        reqs = emu.requests()
+    finally:
+        emu.stop()
+    out = r["out"]
+    if r["timed_out"]:
+        return ("violation", "the upload run did not terminate")
+    # observed actions, from the tool's own log
+    acts = []
+    rev_g = {gname(g): g for g in set([g for g, _ in local] + [g for g, _ in cloud])}
+    for line in out.split("\n"):
+        m = re.search(r'Creating "([^"]+)" backup group', line)
+        if m and m.group(1) in rev_g:
+            acts.append([0, rev_g[m.group(1)]])
+        m = re.search(r'Uploading "[^"]*/([^/"]+)/([^/"]+)" backup', line)
+        if m and m.group(1) in rev_g:
+            g = rev_g[m.group(1)]
+            bn = [b for gg, bs in local if gg == g for b in bs if bname(g, b) == m.group(2)]
+            if bn:
+                acts.append([1, g, bn[0]])
+        m = re.search(r'Deleting "([^"]+)" backup group', line)
+        if m and m.group(1) in rev_g:
+            acts.append([2, rev_g[m.group(1)]])
+    head = out.split("Syncing...")[0]
+    tail_parts = out.split("Syncing...")[1:] or [""]
+    sync_part = tail_parts[0].rsplit("Checking backups on", 1)[0]
+    ok0 = int(not [l for l in slevel.errors_of(head) if not any(p in l for p in CHECK_RS)])
+    ok_obs = int(bool(ok0) and not slevel.errors_of(sync_part))
+    # observed cloud listing (final names only)
+    obs = {}
+    root = cl.CLOUD_ROOT + "/"
+    for path, e in files.items():
+        if not path.startswith(root):
+            continue
+        rel = path[len(root):].split("/")
+        ents = e if isinstance(e, list) else [e]
+        if len(rel) == 1 and rel[0] in rev_g and any(x.get("type") == "folder" for x in ents):
+            obs.setdefault(rev_g[rel[0]], set())
+        if len(rel) == 2 and rel[0] in rev_g and rel[1].endswith(".tar.gpg") and not rel[1].startswith("."):
+            g = rev_g[rel[0]]
+            for b in range(g * 100000, g * 100000 + 10):
+                if bname(g, b) + ".tar.gpg" == rel[1]:
+                    obs.setdefault(g, set()).add(b)
+    obs_list = [[g, sorted(bs)] for g, bs in sorted(obs.items())]
+    case = [600, [local, cloud, ok0, mx, cfail, ufail]]
+    m = model.run_driver([case])[0]
+    desc = "provider=%s local=%s cloud=%s max=%d create_fail=%s upload_fail=%s ok_before=%d" % (provider, local, cloud, mx, cfail, ufail, ok0)
+    # the property, on what the real run did
+    good, why = prop_ok(case, [0, acts, ok_obs])
+    if not good:
+        return ("violation", "real `vsb upload`: " + why)
+    exp_after = cloud_after(case, m)
+    if acts != m[1] or ok_obs != m[2]:
+        return ("tie", "correspondence upload-run-vs-planner no longer checks: actions %s ok=%d, the model plans %s ok=%d (%s)" % (acts, ok_obs, m[1], m[2], desc))
+    if obs_list != exp_after:
+        # decide whether the difference is itself a violation: a window group lost a backup, or a protected group disappeared
+        union, win = window(local, cloud, mx)
+        before = {g: set(bs) for g, bs in cloud}
+        for g in before:
+            if g in win and not before[g] <= obs.get(g, set()):
+                return ("violation", "real `vsb upload`: backups of window group %d disappeared from the cloud: %s -> %s (%s)" % (g, sorted(before[g]), sorted(obs.get(g, [])), desc))
+        return ("tie", "correspondence cloud-namespace-vs-planner no longer checks: the cloud holds %s, the model predicts %s (%s)" % (obs_list, exp_after, desc))
+    return None
+
+
+def e2e(ctx, rng, ncases):
+    from vlib import slevel, cloud as cl
+    providers = ["dropbox", "yandex", "google"]
+    with slevel.Sandbox("c06e") as sb:
+        try:
+            # targeted: a fully synced window, one stale cloud group outside it; with a stray entry on either side the stale group must
+            # stay, without one it must go (positive control)
+            k = 0
+            for stray in (["local"], ["cloud"], []):
+                local = [[5, [500001]], [6, [600001, 600002]]]
+                cloud = [[1, [100001]], [5, [500001]], [6, [600001, 600002]]]
+                provider = providers[k % 3]
+                pr = e2e_case(ctx, sb, 1000 + k, provider, local, cloud, 2, [], stray)
+                ctx.evaluations += 1
+                ctx.count("e2e.targeted.stale-group-%s" % ("with-stray-" + stray[0] if stray else "clean"))
+                ctx.nontrivial.add(("e2e-targeted", provider, tuple(stray)))
+                if pr:
+                    ctx.violation("e2e", pr[1], {"provider": provider, "local": local, "cloud": cloud, "max": 2, "faults": [], "stray": stray},
+                                  failing_input=(pr[0] == "violation"))
+                    return
+                k += 1
+            for n in range(ncases):
+                gs = sorted(rng.sample(range(1, 12), rng.randrange(1, 5)))
+                local = [[g, sorted(rng.sample(range(g * 100000 + 1, g * 100000 + 5), rng.randrange(1, 3)))] for g in gs if rng.random() < 0.75]
+                cloud = []
+                for g in gs:
+                    if rng.random() < 0.6:
+                        lb = [b for gg, bs in local if gg == g for b in bs]
+                        pool = lb + [g * 100000 + 7]
+                        cloud.append([g, sorted(set(rng.sample(pool, rng.randrange(0, len(pool) + 1))))])
+                if rng.random() < 0.3:
+                    extra = rng.choice([0, 13, 14])
+                    if extra not in gs and extra > 0:
+                        cloud.append([extra, [extra * 100000 + 1]])
+                        cloud.sort()
+                mx = rng.randrange(1, 4)
+                faults = []
+                if rng.random() < 0.4:
+                    for g, bs in local:
+                        if rng.random() < 0.3:
+                            faults.append(("create", g))
+                        for b in bs:
+                            if rng.random() < 0.25:
+                                faults.append(("upload", g, b))
+                provider = providers[n % 3]
+                # an unexpected entry on either side makes the listing report an error: the run starts with ok = false and must delete nothing
+                stray = [side for side in ("local", "cloud") if rng.random() < 0.15]
+                for side in stray:
+                    ctx.count("e2e.stray." + side)
+                pr = e2e_case(ctx, sb, n, provider, local, cloud, mx, faults, stray)
+                ctx.evaluations += 1
+                ctx.count("e2e.provider." + provider)
+                ctx.count("e2e.with_faults" if faults else "e2e.fault_free")
+                ctx.nontrivial.add(("e2e", provider, repr(local), repr(cloud), mx, repr(faults)))
+                if pr:
+                    ctx.violation("e2e", pr[1], {"provider": provider, "local": local, "cloud": cloud, "max": mx, "faults": [list(f) for f in faults], "stray": stray},
+                                  failing_input=(pr[0] == "violation"))
+                    return
+                import shutil
+                shutil.rmtree(sb.path("emu%d" % n), ignore_errors=True)
+                shutil.rmtree(sb.path("st%d" % n), ignore_errors=True)
+        finally:
+            cl.kill_agents(sb)
 
 
 def replay(ctx, doc):
